@@ -38,7 +38,7 @@ var profiles = map[string]profile{
 	"sess-deliver": {wEvent: 75, wAck: 10, wSave: 3, wMicro: 0, wLife: 3, wQuery: 9, pReserved: 18, pIllFormed: 6, pSkip: 45, pStore: 40, pAhead: 0, pLatest: 30, pFailSave: 0, pSysEv: 18, pRO: 5, minOps: 25, maxOps: 80, maxVb: 8},
 	"sess-ack": {wEvent: 35, wAck: 50, wSave: 5, wMicro: 0, wLife: 2, wQuery: 8, pReserved: 8, pIllFormed: 0, pSkip: 0, pStore: 50, pAhead: 0, pLatest: 20, pFailSave: 0, pSysEv: 10, pRO: 0, minOps: 20, maxOps: 70, maxVb: 3},
 	"sess-save": {wEvent: 30, wAck: 25, wSave: 12, wMicro: 28, wLife: 1, wQuery: 4, pReserved: 8, pIllFormed: 0, pSkip: 0, pStore: 40, pAhead: 0, pLatest: 30, pFailSave: 35, pSysEv: 30, pRO: 10, minOps: 25, maxOps: 70, maxVb: 3},
-	"sess-loop": {wEvent: 55, wAck: 15, wSave: 22, wMicro: 0, wLife: 2, wQuery: 6, pReserved: 70, pIllFormed: 0, pSkip: 0, pStore: 30, pAhead: 0, pLatest: 20, pFailSave: 10, pSysEv: 5, pRO: 0, minOps: 20, maxOps: 60, maxVb: 3},
+	"sess-loop": {wEvent: 52, wAck: 14, wSave: 16, wMicro: 12, wLife: 2, wQuery: 6, pReserved: 70, pIllFormed: 0, pSkip: 0, pStore: 30, pAhead: 0, pLatest: 20, pFailSave: 10, pSysEv: 5, pRO: 0, minOps: 20, maxOps: 60, maxVb: 3},
 }
 
 func init() {
